@@ -5,7 +5,8 @@
    srv/SrvC08b.v (stop once, status, WaitStatus after the handlers), srv/SrvC08c.v (cancellation, retained
    notifications, restart), srv/SrvC08q.v (quiescence, termination), srv/SrvC08u.v (unblocking channels), srv/SrvC08r.v (drained notifications),
    srv/SrvC08x.v (scenarios), srv/SrvC08y.v (the flags of ServerStatus) srv/SrvC08n.v (notifications handled)
-   srv/SrvC08w.v (callback watchers), srv/SrvC08v.v (restart after WaitStatus)
+   srv/SrvC08w.v (callback watchers), srv/SrvC08v.v (restart after WaitStatus), srv/SrvRestartSim.v and
+   srv/SrvRestartSimCb.v (the restart simulation, without and with callback records in the history)
    and srv/SrvC08m.v (no livelock: a measure every release window decreases).
    All statements quantify over ALL configurations, ALL reachable states (reach = window boundaries, reachf =
    every intermediate state too) and ALL traces; there are no bounds.
@@ -13,7 +14,7 @@
 From Coq Require Import List NArith ZArith Bool Arith Lia.
 From RecordUpdate Require Import RecordUpdate.
 From JV Require Import Bytes Msg SrvModel SrvLemmas SrvBasics SrvC10 SrvC08 SrvC08b SrvC08c SrvC08q SrvC08r SrvC08s SrvC08u SrvC08y SrvC08n SrvC08w SrvC08v SrvC08m.
-From JV Require Import SrvEventually SrvProgress SrvRestartSim.
+From JV Require Import SrvEventually SrvProgress SrvRestartSim SrvRestartSimCb SrvC09.
 Import ListNotations.
 
 (** 1. No interleaving makes the process panic: none of the model's crash outcomes (CrNilChannel = deliver
@@ -492,7 +493,8 @@ Print Assumptions c08_terminates_K0_refuted.
     state on every field except the history (finished tasks and units, dead callbacks and their counter, start/close
     counters) and what the environment has pending.  The restarted state is reachable, so every theorem of this file
     applies to the restarted server.  Below (the c08_restart_simulation theorems) the SIMULATION: the runs of the restarted
-    server are exactly the runs of a freshly started one, with task/unit indices shifted, and the same observations. *)
+    server are exactly the runs of a freshly started one, with task/unit(/callback) indices shifted, and the same
+    observations (up to the renaming of callback ids when the history contains callback records). *)
 Theorem c08_restart_fresh : forall c s, reach c s -> wg s = 0 -> running s = false ->
   step s LStart = Some (started s, []) /\ fresh_fields c (started s) /\
   tasks (started s) = tasks s /\ units (started s) = units s /\ cbs (started s) = cbs s /\
@@ -587,17 +589,10 @@ Theorem c08_restart_trace_properties_nopush : forall c s (P : list (list obs) ->
 Proof. exact restart_trace_properties_nopush. Qed.
 Print Assumptions c08_restart_trace_properties_nopush.
 
-(* PARTIAL for servers with AllowPush: the same simulation, proved when no Callback was registered by the earlier
-   incarnations (cbs s = [] and call_id s = 1; Notify is fine).  MISSING for the full statement: a history that
-   contains callback records.  It needs (i) the relation extended to the callback table (old records first, all
-   completed: not registered, watcher done or parked with nothing to do; indices of LRelCbWatch shifted), (ii) callback
-   ids renamed in the observations (OSendReq) AND in the reply members the environment feeds
-   (dec_of_nat (call_id s - 1 + k) in the restarted run for dec_of_nat k in the fresh one; replies bearing an id of an
-   old callback are unsolicited in the restarted run and have no counterpart bearing the same id in the fresh one when
-   that numeral is registered there: the correspondence of fed records is a relation, not a renaming function), and
-   (iii) the environment hypothesis that operation numbers are not reused across incarnations (LCbCtxEnd n finds the
-   first record with number n, which may be an old one). *)
-Theorem c08_restart_simulation_partial : forall c s, reach c s -> wg s = 0 -> running s = false ->
+(* The special case of a history without callback records (cbs s = [] and call_id s = 1; AllowPush or not, Notify
+   is fine): the same exact simulation as without AllowPush - identical observations, no renaming, and NO hypothesis
+   on the environment.  (Formerly c08_restart_simulation_partial; the general case is c08_restart_simulation below.) *)
+Theorem c08_restart_simulation_no_callbacks : forall c s, reach c s -> wg s = 0 -> running s = false ->
   cbs s = [] -> call_id s = 1 ->
   step s LStart = Some (started s, []) /\ reach c (fresh_of c s) /\ started s = rs_emb s (fresh_of c s) /\
   (forall x l, step (rs_emb s x) (rs_label s l) =
@@ -609,7 +604,304 @@ Theorem c08_restart_simulation_partial : forall c s, reach c s -> wg s = 0 -> ru
   (forall tr' sr oss, run (started s) tr' = Some (sr, oss) ->
      exists tr x, tr' = map (rs_label s) tr /\ run (fresh_of c s) tr = Some (x, oss) /\ sr = rs_emb s x).
 Proof. exact restart_simulation. Qed.
-Print Assumptions c08_restart_simulation_partial.
+Print Assumptions c08_restart_simulation_no_callbacks.
+
+(* THE GENERAL CASE (srv/SrvRestartSimCb.v): a server with AllowPush restarted after ANY history, whatever Callbacks
+   its earlier incarnations registered, including Callbacks that are still registered at the restart (their context
+   cancelled by Stop, their watcher not yet run).
+
+   The restarted server numbers its callbacks from call_id s, the fresh one from 1, so the simulation holds up to the
+   RENAMING of callback ids  ren dk  with dk = call_id s - 1: the numeral of k >= 1 becomes the numeral of dk + k, every
+   other byte string is left alone (c08_restart_ren_spec).  It is applied
+     - to the ids in the callback table and in [calls] of the embedded state (c08_rsc_emb_cb_spec: the old records ocb
+       come first, callback indices are shifted by |ocb|, the registrations ocl of old callbacks still pending are kept
+       behind those of the new run, the id counter is advanced by dk; tasks/units/counters as in rs_emb),
+     - to the ids of the members of fed records that are not requests/notifications: in LFeed labels, in the channel
+       and in the reader's hands (c08_restart_feed_spec), and to the index of LRelCbWatch (c08_rsc_label_spec),
+     - to the ids of the OSendReq observations (ren_obs); no other observation changes, in particular not the ids of
+       the responses to the peer's own calls.
+   ENVIRONMENT HYPOTHESES, stated as boolean predicates on labels (lab_ok for the fresh run, lab_ok' for the restarted
+   run; oops = the operation numbers of the old records; c08_restart_lab_ok_spec), each shown necessary or discharged:
+     (ii)  shaped_feed: a fed member that is neither a request/notification nor reply-shaped (no method, and a result
+           or an error) does not carry a positive numeral as its id.  Such a member is answered under its own id when
+           that id is not registered and completes a callback when it is, so no renaming FUNCTION on fed records can
+           be right for it: c08_restart_unshaped_refuted.  (Real peers send requests, notifications and replies.)
+     (iii) LCbCtxEnd n is not used with the operation number n of an old record (operation numbers are not reused
+           across incarnations for the context-end signal): c08_restart_ops_reuse_refuted shows it is needed.
+     (iv)  in the RESTARTED run no fed member that is not a request bears the id of an old callback (no_old_feed);
+           these are exactly the records outside the image of the renaming.  A reply bearing the id of an old callback
+           that has returned is unsolicited: c08_restart_old_reply_unsolicited (it is a late reply in the sense of
+           C09.5 and is skipped like any unknown id).  NOT COVERED: a reply that bears the id of an old callback
+           STILL registered at the restart (it is delivered to that old Callback's caller, which has no counterpart in
+           a fresh server); runs that contain records violating (ii)-(iv) are outside the run-level statements.
+   pinv (c08_restart_pinv_spec) collects what the one-window statement needs of the fresh state: AllowPush, the id
+   counter is at least 1, the records in the channel and in the reader's hands are shaped; it holds of fresh_of c s and
+   is preserved by every window whose label is shaped (c08_restart_pinv_step).
+   WHAT IS PROVED: Start is enabled; the fresh state is reachable; the restarted state IS the embedding of the fresh
+   one behind the history; [step] commutes with the embedding for EVERY label of the fresh server (observations
+   renamed); labels that address a task or unit of the history are disabled; the label LRelCbWatch i of an OLD callback
+   record (i < |ocb|) is disabled or changes the old records only (old_release, c08_old_release_spec): it marks the
+   watcher done and, if that callback is still registered and unanswered, completes it with the cancellation, which
+   returns to its caller (one ORet of an old operation number, only possible while some old registration is pending);
+   every other label of the restarted server is a relabelled one.  Hence whole runs correspond in both directions:
+   forward with renamed observations; backward, the restarted run minus the windows of old watchers (strip,
+   fresh_windows: c08_restart_strip_spec, c08_restart_windows_spec) is a renamed fresh run, and each window of an old
+   watcher (old_windows) is empty or one return of an old Callback. *)
+Theorem c08_restart_simulation : forall c s, reach c s -> cf_push c = true -> wg s = 0 -> running s = false ->
+  let dk := call_id s - 1 in
+  let nc := length (cbs s) in
+  let oops := map cb_op (cbs s) in
+  step s LStart = Some (started s, []) /\ reach c (fresh_of c s) /\ pinv (fresh_of c s) /\
+  old_ok dk (cbs s) (calls s) /\ started s = rsc_emb s (cbs s) (calls s) (fresh_of c s) /\
+  (forall ocb ocl x l, old_ok dk ocb ocl -> pinv x -> lab_ok (map cb_op ocb) l = true ->
+     step (rsc_emb s ocb ocl x) (rsc_label s (length ocb) l) =
+     match step x l with Some (x', os) => Some (rsc_emb s ocb ocl x', map (ren_obs dk) os) | None => None end) /\
+  (forall ocb ocl x l', old_label (tasks s) (units s) l' = true -> step (rsc_emb s ocb ocl x) l' = None) /\
+  (forall ocb ocl x i, old_ok dk ocb ocl -> i < length ocb -> settle1 x = None ->
+     step (rsc_emb s ocb ocl x) (LRelCbWatch i) =
+     match crash x, old_release i ocb ocl with
+     | None, Some (ocb', ocl', os) => Some (rsc_emb s ocb' ocl' x, os)
+     | _, _ => None
+     end) /\
+  (forall l', old_label (tasks s) (units s) l' = false -> old_watch nc l' = false -> lab_ok' dk oops l' = true ->
+     exists l, l' = rsc_label s nc l /\ lab_ok oops l = true) /\
+  (forall tr x oss, forallb (lab_ok oops) tr = true -> run (fresh_of c s) tr = Some (x, oss) ->
+     run (started s) (map (rsc_label s nc) tr) = Some (rsc_emb s (cbs s) (calls s) x, map (map (ren_obs dk)) oss) /\
+     forallb (lab_ok' dk oops) (map (rsc_label s nc) tr) = true) /\
+  (forall tr' sr oss, forallb (lab_ok' dk oops) tr' = true -> run (started s) tr' = Some (sr, oss) ->
+     exists ocb' ocl' x ossf,
+       run (fresh_of c s) (strip (tasks s) (units s) dk nc tr') = Some (x, ossf) /\
+       forallb (lab_ok oops) (strip (tasks s) (units s) dk nc tr') = true /\
+       sr = rsc_emb s ocb' ocl' x /\
+       fresh_windows nc tr' oss = map (map (ren_obs dk)) ossf /\
+       Forall (old_window oops (calls s)) (old_windows nc tr' oss) /\
+       old_ok dk ocb' ocl' /\ length ocb' = nc /\ map cb_op ocb' = oops /\ map cb_id ocb' = map cb_id (cbs s) /\
+       (forall p, In p ocl' -> In p (calls s))).
+Proof. exact restart_simulation_cb. Qed.
+Print Assumptions c08_restart_simulation.
+
+(* so every property of the observations of a fresh server that is invariant under the renaming of callback ids holds
+   of the observations of the restarted server outside the windows of old watchers, and conversely (environments as
+   above) *)
+Theorem c08_restart_trace_properties : forall c s (P : list obs -> Prop), reach c s -> cf_push c = true -> wg s = 0 ->
+  running s = false ->
+  (forall os, P os <-> P (map (ren_obs (call_id s - 1)) os)) ->
+  ((forall tr x oss, forallb (lab_ok (map cb_op (cbs s))) tr = true -> run (fresh_of c s) tr = Some (x, oss) ->
+      P (concat oss)) <->
+   (forall tr' sr oss, forallb (lab_ok' (call_id s - 1) (map cb_op (cbs s))) tr' = true ->
+      run (started s) tr' = Some (sr, oss) -> P (concat (fresh_windows (length (cbs s)) tr' oss)))).
+Proof. exact restart_trace_properties_cb. Qed.
+Print Assumptions c08_restart_trace_properties.
+
+(* the general fact behind it: for ANY finished history (ot, ou as in c08_embedding_commutes), any old records ocb with
+   pending registrations ocl (old_ok), any state x with pinv and any label allowed by lab_ok, [step] commutes with the
+   embedding *)
+Theorem c08_embedding_commutes_cb : forall ot ou ds dc dk,
+  (forall t, In t ot -> finished t = true /\ t_unit t < length ou) -> (forall u, In u ou -> u_st u = UFinished) ->
+  forall ocb ocl x l, old_ok dk ocb ocl -> pinv x -> lab_ok (map cb_op ocb) l = true ->
+    step (embc ot ou ds dc dk ocb ocl x) (rs_labelc ot ou dk (length ocb) l) =
+    option_map (fun r => (embc ot ou ds dc dk ocb ocl (fst r), map (ren_obs dk) (snd r))) (step x l).
+Proof. exact embc_step. Qed.
+Print Assumptions c08_embedding_commutes_cb.
+
+(* (iv) a reply bearing the id of an old callback that has returned (not pending in ocl) is unsolicited in the
+   restarted run: a late reply (C09.5, late_reply: AllowPush, not a request, no method, reply fields, id not registered),
+   skipped by the reader exactly like a reply with an unknown id; c09_late_reply_* apply to it *)
+Theorem c08_restart_old_reply_unsolicited : forall ot ou ds dc dk ocb ocl x m,
+  old_ok dk ocb ocl -> c_push x = true -> is_req_or_notif m = false ->
+  j_method m = [] -> has_reply_fields m = true -> old_id dk (fix_id (j_id m)) = true ->
+  assoc (fix_id (j_id m)) ocl = None ->
+  late_reply (embc ot ou ds dc dk ocb ocl x) m /\
+  forall r keep acc, filter_batch (m :: r) (embc ot ou ds dc dk ocb ocl x) keep acc =
+                     filter_batch r (embc ot ou ds dc dk ocb ocl x) keep acc.
+Proof. exact embc_old_reply_late. Qed.
+Print Assumptions c08_restart_old_reply_unsolicited.
+
+(* the invariant of the fresh run *)
+Theorem c08_restart_pinv_spec : forall x, pinv x <->
+  c_push x = true /\ 1 <= call_id x /\ (forall f, In f (ch_in x) -> shaped_feed f = true) /\
+  (forall f, rd x = RHold f -> shaped_feed f = true).
+Proof. exact pinv_spec. Qed.
+Print Assumptions c08_restart_pinv_spec.
+
+Theorem c08_restart_pinv_step : forall s l s' os, step s l = Some (s', os) ->
+  (match l with LFeed f => shaped_feed f | _ => true end) = true -> pinv s -> pinv s'.
+Proof. exact step_pinv. Qed.
+Print Assumptions c08_restart_pinv_step.
+
+(* the callback records of a stopped reachable state are old records for the next incarnation *)
+Theorem c08_restart_old_records : forall c s, reach c s -> running s = false -> old_ok (call_id s - 1) (cbs s) (calls s).
+Proof. exact reach_old_ok. Qed.
+Print Assumptions c08_restart_old_records.
+
+(* the definitions, spelled out *)
+Theorem c08_restart_ren_spec : forall dk,
+  (forall j, ren dk (dec_of_nat (S j)) = dec_of_nat (dk + S j)) /\
+  (forall b, (forall j, b <> dec_of_nat (S j)) -> ren dk b = b) /\
+  (forall a b, ren dk a = ren dk b -> a = b).
+Proof. exact ren_spec. Qed.
+Print Assumptions c08_restart_ren_spec.
+
+Theorem c08_restart_old_id_spec : forall dk b, old_id dk b = true <-> exists j, 1 <= j <= dk /\ b = dec_of_nat j.
+Proof. exact old_id_spec. Qed.
+Print Assumptions c08_restart_old_id_spec.
+
+Theorem c08_restart_shaped_spec : forall m, shaped_msg m = true <->
+  is_req_or_notif m = true \/ (j_method m = [] /\ has_reply_fields m = true) \/ (forall j, j_id m <> dec_of_nat (S j)).
+Proof. exact shaped_msg_spec. Qed.
+Print Assumptions c08_restart_shaped_spec.
+
+Theorem c08_restart_no_old_spec : forall dk m, no_old_msg dk m = true <->
+  is_req_or_notif m = true \/ (forall j, 1 <= j <= dk -> j_id m <> dec_of_nat j).
+Proof. exact no_old_msg_spec. Qed.
+Print Assumptions c08_restart_no_old_spec.
+
+Theorem c08_restart_feed_spec : forall dk f,
+  shaped_feed f = match f with FMsg (InMsgs _ ms) | FMsgEOF (InMsgs _ ms) => forallb shaped_msg ms | _ => true end /\
+  no_old_feed dk f = match f with FMsg (InMsgs _ ms) | FMsgEOF (InMsgs _ ms) => forallb (no_old_msg dk) ms | _ => true end /\
+  ren_feed dk f = match f with
+                  | FMsg (InMsgs b ms) => FMsg (InMsgs b (map (ren_msg dk) ms))
+                  | FMsgEOF (InMsgs b ms) => FMsgEOF (InMsgs b (map (ren_msg dk) ms))
+                  | x => x
+                  end /\
+  (forall m, ren_msg dk m = if is_req_or_notif m then m
+                            else Build_jmsg (ren dk (j_id m)) (j_method m) (j_params m) (j_error m) (j_result m) (j_err m)).
+Proof. exact feed_preds_spec. Qed.
+Print Assumptions c08_restart_feed_spec.
+
+Theorem c08_rsc_emb_cb_spec : forall s ocb ocl x,
+  let y := embk (call_id s - 1) ocb ocl x in
+  rsc_emb s ocb ocl x = rs_emb s y /\
+  calls y = map (fun p => (ren (call_id s - 1) (fst p), length ocb + snd p)) (calls x) ++ ocl /\
+  call_id y = call_id s - 1 + call_id x /\
+  cbs y = ocb ++ map (fun c0 => mkCb (cb_op c0) (ren (call_id s - 1) (cb_id c0)) (cb_slot c0) (cb_ctx c0) (cb_cancelled c0)
+                                     (cb_watch c0) (cb_ret c0)) (cbs x) /\
+  ch_in y = map (ren_feed (call_id s - 1)) (ch_in x) /\
+  rd y = match rd x with RHold f => RHold (ren_feed (call_id s - 1) f) | r => r end /\
+  (c_K y, c_push y, c_builtin y, c_methods y, c_unblock y) = (c_K x, c_push x, c_builtin x, c_methods x, c_unblock x) /\
+  (send_fail y, running y, stop_err y, work_closed y, closes y, starts y) =
+    (send_fail x, running x, stop_err x, work_closed x, closes x, starts x) /\
+  (dp y, inq y, units y, tasks y, nbar y, sem_free y, sem_wait y, used y) =
+    (dp x, inq x, units x, tasks x, nbar x, sem_free x, sem_wait x, used x) /\
+  (wg y, ops y, waits y, ended y, crash y) = (wg x, ops x, waits x, ended x, crash x).
+Proof. exact rsc_emb_cb_spec. Qed.
+Print Assumptions c08_rsc_emb_cb_spec.
+
+Theorem c08_rsc_label_spec : forall s nc l, rsc_label s nc l =
+  match l with
+  | LFeed f => LFeed (ren_feed (call_id s - 1) f)
+  | LRelCbWatch i => LRelCbWatch (nc + i)
+  | LRelAcquire k => LRelAcquire (length (tasks s) + k)
+  | LRelHandled k => LRelHandled (length (tasks s) + k)
+  | LRelDeliver u => LRelDeliver (length (units s) + u)
+  | x => x
+  end.
+Proof. exact rsc_label_spec. Qed.
+Print Assumptions c08_rsc_label_spec.
+
+Theorem c08_restart_lab_ok_spec : forall dk oops l,
+  lab_ok oops l = match l with
+                  | LFeed f => shaped_feed f
+                  | LCbCtxEnd n _ => forallb (fun o => negb (o =? n)) oops
+                  | _ => true
+                  end /\
+  lab_ok' dk oops l = (lab_ok oops l && match l with LFeed f => no_old_feed dk f | _ => true end) /\
+  (forall nc, old_watch nc l = match l with LRelCbWatch i => i <? nc | _ => false end).
+Proof. exact lab_ok_spec. Qed.
+Print Assumptions c08_restart_lab_ok_spec.
+
+Theorem c08_restart_strip_spec : forall ot ou dk nc,
+  strip ot ou dk nc [] = [] /\
+  (forall l' r, strip ot ou dk nc (l' :: r) =
+     if old_watch nc l' then strip ot ou dk nc r
+     else match l' with
+          | LFeed f => LFeed (map_feed (unren dk) f)
+          | LRelCbWatch i => LRelCbWatch (i - nc)
+          | LRelAcquire k => LRelAcquire (k - length ot)
+          | LRelHandled k => LRelHandled (k - length ot)
+          | LRelDeliver u => LRelDeliver (u - length ou)
+          | x => x
+          end :: strip ot ou dk nc r) /\
+  (forall b, unren dk b = match idnum b with Some j => if dk <? j then dec_of_nat (j - dk) else b | None => b end) /\
+  (forall b, old_id dk b = false -> ren dk (unren dk b) = b) /\ (forall b, unren dk (ren dk b) = b).
+Proof. exact strip_spec. Qed.
+Print Assumptions c08_restart_strip_spec.
+
+Theorem c08_restart_windows_spec : forall nc,
+  (forall l' r o q, fresh_windows nc (l' :: r) (o :: q) =
+     if old_watch nc l' then fresh_windows nc r q else o :: fresh_windows nc r q) /\
+  (forall l' r o q, old_windows nc (l' :: r) (o :: q) =
+     if old_watch nc l' then o :: old_windows nc r q else old_windows nc r q) /\
+  (forall oss, fresh_windows nc [] oss = [] /\ old_windows nc [] oss = []) /\
+  (forall tr', fresh_windows nc tr' [] = [] /\ old_windows nc tr' [] = []) /\
+  (forall oops ocl w, old_window oops ocl w <-> w = [] \/ (ocl <> [] /\ exists n r, In n oops /\ w = [ORet n r])).
+Proof. exact windows_spec. Qed.
+Print Assumptions c08_restart_windows_spec.
+
+Theorem c08_old_ok_spec : forall dk ocb ocl, old_ok dk ocb ocl <->
+  (forall c, In c ocb -> old_id dk (cb_id c) = true) /\
+  (forall p, In p ocl -> old_id dk (fst p) = true) /\
+  (forall c, In c ocb -> assoc (cb_id c) ocl <> None -> cb_cancelled c = true /\ cb_watch c <> WBlocked).
+Proof. exact old_ok_spec. Qed.
+Print Assumptions c08_old_ok_spec.
+
+Theorem c08_old_release_spec : forall i ocb ocl, old_release i ocb ocl =
+  match nth_error ocb i with
+  | Some c =>
+      match cb_watch c with
+      | WParked =>
+          let done := upd_nth i (fun c0 => c0 <| cb_watch := WDone |>) ocb in
+          let '(code, msg) := match cb_ctx c with
+                              | Some WDeadline => (DeadlineExceeded, s_ctx_deadline)
+                              | _ => (Cancelled, s_ctx_canceled) end in
+          match assoc (cb_id c) ocl, cb_slot c with
+          | Some j, None =>
+              if j =? i then
+                Some (upd_nth i (fun c0 => wake_watch (c0 <| cb_slot := Some (CErr code msg) |>)) done,
+                      assoc_del (cb_id c) ocl,
+                      if cb_ret c then [] else [ORet (cb_op c) (ctx_res code msg)])
+              else Some (done, ocl, [])
+          | _, _ => Some (done, ocl, [])
+          end
+      | _ => None
+      end
+  | None => None
+  end.
+Proof. exact old_release_spec. Qed.
+Print Assumptions c08_old_release_spec.
+
+(* the old records keep their ids, operation numbers and number, stay old records, and registrations only disappear *)
+Theorem c08_old_release_preserves : forall dk i ocb ocl ocb' ocl' os, old_ok dk ocb ocl ->
+  old_release i ocb ocl = Some (ocb', ocl', os) ->
+  old_ok dk ocb' ocl' /\ length ocb' = length ocb /\ map cb_op ocb' = map cb_op ocb /\ map cb_id ocb' = map cb_id ocb /\
+  (forall p, In p ocl' -> In p ocl) /\ map (ren_obs dk) os = os /\
+  (os = [] \/ (ocl <> [] /\ exists n r, In n (map cb_op ocb) /\ os = [ORet n r])).
+Proof. exact old_release_ok. Qed.
+Print Assumptions c08_old_release_preserves.
+
+(* hypotheses (iii) and (ii) are needed: concrete reachable counterexamples (the history of
+   restart_simulation_cb_nonvacuous: one callback answered, one still registered when Stop closes the server) *)
+Theorem c08_restart_ops_reuse_refuted :
+  let s := ex_s0 in
+  let tr := [LCbCtxEnd 1 WCancel; LCallPush 1 true [112%N] [114%N]; LRelPush 1; LRelCbWatch 0] in
+  forallb (lab_ok (map cb_op (cbs s))) tr = false /\
+  (exists x, run (fresh_of ex_cfg2 s) tr =
+             Some (x, [[]; []; [OSendReq true [49%N] [112%N] [114%N]]; [ORet 1 (ACbCtx WCancel)]])) /\
+  run (started s) (map (rsc_label s 2) tr) = None.
+Proof. exact restart_ops_reuse_refuted. Qed.
+Print Assumptions c08_restart_ops_reuse_refuted.
+
+Theorem c08_restart_unshaped_refuted :
+  let s := ex_s0 in
+  let m := {| j_id := [49%N]; j_method := []; j_params := []; j_error := None; j_result := []; j_err := None |} in
+  let tr := [LFeed (FMsg (InMsgs false [m])); LRelRead; LRelNext; LRelBarrier; LRelDeliver 0] in
+  forallb (lab_ok (map cb_op (cbs s))) tr = false /\
+  (exists x, run (fresh_of ex_cfg2 s) tr =
+     Some (x, [[]; []; []; []; [OSend true false [{| r_id := [49%N]; r_body := BErr InvalidRequest s_empty_method |}]]])) /\
+  (exists x, run (started s) (map (rsc_label s 2) tr) =
+     Some (x, [[]; []; []; []; [OSend true false [{| r_id := [51%N]; r_body := BErr InvalidRequest s_empty_method |}]]])).
+Proof. exact restart_unshaped_refuted. Qed.
+Print Assumptions c08_restart_unshaped_refuted.
 
 (* the general fact behind both: for ANY state x (any configuration) and any finished history (ot: finished tasks that
    belong to the units ou; ou: finished units), [step] commutes with the embedding, for every label *)
